@@ -126,6 +126,18 @@ CHECKS.update({
             "DESIGN.md section 4 C15"),
 })
 
+CHECKS.update({
+    "C16": ("Hypothesis PBT: every region-graph algorithm with generated arguments (incl. generated data sets for "
+            "Chow-Liu) and every build_circuit mode; oracle = independent set-based validity predicates, dump/load "
+            "round-trip, structural validation of the built circuit",
+            "Exploration: generated region graphs are validated (root coverage, partitions disjoint / covering, single "
+            "parent, SD flag == set-based definition), round-tripped through dump/load, and turned into circuits with "
+            "cp / cp-t / tucker and explicit factories that are re-validated independently (smooth, decomposable, "
+            "scope, SD, outputs); n <= 12 variables, images <= 2x5x5.",
+            "Trusted: vlib/defs.py; ValueError on arguments outside an algorithm's documented domain is a refusal.",
+            "DESIGN.md section 4 C16"),
+})
+
 NOT_APPLICABLE = {}
 
 
